@@ -255,6 +255,8 @@ class Engine:
             return True
         if z3.is_false(cond):
             return False
+        if not hasattr(self, "dpos"):
+            raise Unsupported("a symbolic decision outside path exploration")
         if self.dpos < len(self.decisions):
             choice = self.decisions[self.dpos]
             self.dpos += 1
@@ -1311,6 +1313,11 @@ STD_MODELS = [
     (r"^<(?:std::result::)?Result<.*> as Try>::branch$", ext_res_try_branch),
     (r"^<(?:std::result::)?Result<.*> as FromResidual<(?:std::result::)?Result<Infallible, .*>>>::from_residual$", lambda e, m, a: ("enum", "Result::Err", [a[0][2][0]])),
     (r"^std::result::Result::<.*>::unwrap_or$", ext_res_unwrap_or),
+    (r"^std::result::Result::<.*>::or::<.*>$", lambda e, m, a: a[0] if a[0][1].endswith("Ok") else a[1]),
+    (r"^std::option::Option::<.*>::or$", lambda e, m, a: a[0] if a[0][0] == "Some" else a[1]),
+    (r"^std::result::Result::<.*>::unwrap_or_else::<.*>$", lambda e, m, a: a[0][2][0] if a[0][1].endswith("Ok") else _closure_call(e, m, [a[0][2][0]], a[1])),
+    (r"^std::result::Result::<.*>::or_else::<.*>$", lambda e, m, a: a[0] if a[0][1].endswith("Ok") else _closure_call(e, m, [a[0][2][0]], a[1])),
+    (r"^std::option::Option::<.*>::or_else::<.*>$", lambda e, m, a: a[0] if a[0][0] == "Some" else _closure_call(e, m, [], a[1])),
     (r"^std::result::Result::<(\w+), .*>::unwrap_or_default$", ext_unwrap_or_default),
     (r"^std::option::Option::<(\w+)>::unwrap_or_default$", ext_unwrap_or_default),
     (r"^std::option::Option::<.*>::filter::<.*>$", ext_opt_filter),
